@@ -11,22 +11,9 @@ the symbolic float type `Go.FExpr` and `FExpr.add`: the hybrid score of a merged
 of leaf formulas.  IEEE rounding is not interpreted.
 -/
 import SemaModel.C06.Props
-import SemaModel.Generated.Hybrid
+import SemaModel.C06.LeafHybrid
 namespace Sema.C06
 open Sema Sema.Go Sema.Gen
-
-/-- the three ranking indexes -/
-inductive LeafKind where
-  | text | flat | vamana
-  deriving DecidableEq, Repr
-
-/-- the hybrid score a leaf search reports for its ranking value `x` (tf-idf score / distance) and the optional
-query weight `w`, as generated from the source of the index -/
-def leafHybrid (k : LeafKind) (w : Option FExpr) (x : FExpr) : FExpr :=
-  match k with
-  | .text => Hybrid.text_hybrid x (Hybrid.text_weight ⟨w⟩)
-  | .flat => Hybrid.flat_hybrid (Hybrid.flat_weight ⟨w⟩) x
-  | .vamana => Hybrid.vamana_hybrid ⟨x⟩ (Hybrid.vamana_weight ⟨w⟩)
 
 /-- **weight × score / −weight × distance**, operand for operand as the three sources have it -/
 theorem C06_leaf_hybrid_formula (w : Option FExpr) (x : FExpr) :
